@@ -35,10 +35,12 @@ pub fn def() -> CheckDef {
             "the no-sharing baseline uses the public eval_node with an EvalContext whose duplicate table holds only the wild-card preload (counters raised so that nothing is evicted)",
             "hook events are coverage accounting only; verdicts are taken on returned sets",
         ],
-        cases: |t| if t == Tier::Quick { 12_000 } else { 300_000 },
+        cases: |t| (if t == Tier::Quick { 12_000 } else { 300_000 }) + super::big::count(t),
         needs: |t| {
             let m = if t == Tier::Quick { 1 } else { 30 };
+            let big_min = super::big::count(t) / 2;
             vec![
+                ("big_model_cases_completed", big_min),
                 ("distinct_nontrivial", 300 * m),
                 ("ev_cache_hit", 500 * m),
                 ("ev_cache_hit_renamed", 100 * m),
@@ -68,7 +70,12 @@ fn eval_no_sharing(sys: &Sys, text: &str, ctx: &LabelToSetMap) -> Result<GraphCo
     Ok(eval_node(tree, &sys.graph, &mut ec, &steady, &mut |_: &GraphColoredVertices, _: &str| {}))
 }
 
-fn run(rng: &mut Rng, _idx: u64, tier: Tier) -> CaseOut {
+fn run(rng: &mut Rng, idx: u64, tier: Tier) -> CaseOut {
+    let small: u64 = if tier == Tier::Quick { 12_000 } else { 300_000 };
+    if idx >= small {
+        // bundled benchmark-size models (child process, see bigrun.rs / big.rs)
+        return super::big::run("C04", idx - small, rng, tier);
+    }
     let mut nopts = NetOpts::default();
     nopts.max_vars = if tier == Tier::Quick { 3 } else { 4 };
     let mut fopts = FormOpts::plain();
